@@ -114,7 +114,8 @@ type parkedTask struct {
 }
 
 type World struct {
-	lenientReads bool // see unmodelled
+	lenientReads bool        // see unmodelled
+	sites        [][3]string // (task, store call, fault fired or "") for every step at a yield that admits faults
 	mu           sync.Mutex
 	db           *DB
 	eventCtr     uint64
@@ -450,6 +451,21 @@ func (w *World) Step() bool {
 		w.firedAt = append(w.firedAt, FaultAt{Task: chosen.key, N: chosen.n, Kind: fault.Kind, Arg: fault.Arg})
 		w.mu.Unlock()
 	}
+	admits := false
+	if w.explore != nil {
+		for _, k := range chosen.kinds {
+			if w.explore.Kinds[k] {
+				admits = true
+			}
+		}
+	}
+	if admits {
+		k := ""
+		if fault != nil {
+			k = string(fault.Kind)
+		}
+		w.sites = append(w.sites, [3]string{chosen.key, chosen.op, k})
+	}
 	w.logf("step %d: %s#%d %s %s%s", w.steps, chosen.key, chosen.n, chosen.op, chosen.note, fs)
 	w.trace = append(w.trace, chosen.key+":"+chosen.op+fs)
 	if fault != nil {
@@ -508,6 +524,9 @@ func (w *World) decideFault(p *parkedTask) *Fault {
 	f := &Fault{Kind: k}
 	if k == FClockJump {
 		f.Arg = []int{-3600000, -5, 5, 3600000}[w.explore.Fault.Intn(4)]
+	}
+	if k == FExporterItemErr {
+		f.Arg = w.explore.Fault.Intn(1 << 16) // which item of the batch is refused
 	}
 	if k == FBodyCut || k == FBodyTrunc {
 		f.Arg = w.explore.Fault.Intn(1 << 16)
